@@ -8,7 +8,7 @@ import random
 from vlib import Case
 
 BS_KINDS = [("RG", 1), ("RG", 2), ("RG", 3), ("RG", 4), ("RG", 20),
-            ("RRR", 2), ("RRR", 16), ("RRR", 32), ("RRR", 64), ("RRR", 128),
+            ("RRR", 1), ("RRR", 2), ("RRR", 3), ("RRR", 5), ("RRR", 16), ("RRR", 32), ("RRR", 33), ("RRR", 64), ("RRR", 128),
             ("SDARRAY", 0), ("DARRAY", 0)]
 
 
@@ -204,7 +204,7 @@ def gen(tier, seed):
             cases.append(bs_case(rnd, "bx%d_%s%d_%s_%d" % (ci, kind, param, pat, n), kind, param, mk_bits(rnd, n, pat), pat))
             ci += 1
     # wavelet trees
-    combos = [("WT", "RG", 2), ("WT", "RG", 4), ("WT", "RG", 20), ("WT", "RRR", 16), ("WT", "RRR", 32), ("WT", "RRR", 128),
+    combos = [("WT", "RG", 2), ("WT", "RG", 4), ("WT", "RG", 20), ("WT", "RRR", 16), ("WT", "RRR", 32), ("WT", "RRR", 128), ("WT", "RRR", 3), ("WT", "RRR", 33),
               ("WTNP", "RG", 20), ("WTNP", "RG", 4), ("WTNP", "RRR", 32)]
     per_combo = 8 if tier == "quick" else 80
     for kind, bk, param in combos:
